@@ -1,13 +1,28 @@
 import Aiorpcx.C02.Model
-/-! C02 — closed forms for the batch bookkeeping. -/
+/-! C02 — closed forms for the batch bookkeeping.
+
+    The model's `runCalls` looks the answering id up in the items (`boundId`).  The closed forms
+    are stated for *resolved* deliveries `BCall` (member, bound id, result); `resolve` attaches to
+    each delivery the id its item is bound to, and `boundId_scan` says which id that is: the one
+    the member carries in the composition. -/
 namespace Aiorpcx.C02
 open List
 open Aiorpcx.C01 (Id)
 
 variable {R : Type}
 
+/-- a delivery with the id its `send_result` is bound to made explicit -/
+abbrev BCall (R : Type) := Nat × Id × R
+
+def runBound (max inc : Nat) (encLen : Id → R → Nat) :
+    ReqBatch R → List (BCall R) → List (Option (List (Entry R)))
+  | _, [] => []
+  | b, c :: cs =>
+      let r := sendResult max inc encLen b c.1 c.2.1 c.2.2
+      r.2 :: runBound max inc encLen r.1 cs
+
 /-- the entries produced by a sequence of `send_result` calls starting from running size `s` -/
-def entriesFrom (max inc : Nat) (encLen : Id → R → Nat) : Nat → List (Call R) → List (Entry R)
+def entriesFrom (max inc : Nat) (encLen : Id → R → Nat) : Nat → List (BCall R) → List (Entry R)
   | _, [] => []
   | s, c :: cs =>
       let s' := s + encLen c.2.1 c.2.2 + inc
@@ -15,7 +30,7 @@ def entriesFrom (max inc : Nat) (encLen : Id → R → Nat) : Nat → List (Call
         :: entriesFrom max inc encLen s' cs
 
 /-- the running size after the calls `cs` -/
-def sizeAfter (inc : Nat) (encLen : Id → R → Nat) (s : Nat) (cs : List (Call R)) : Nat :=
+def sizeAfter (inc : Nat) (encLen : Id → R → Nat) (s : Nat) (cs : List (BCall R)) : Nat :=
   s + (cs.map fun c => encLen c.2.1 c.2.2 + inc).sum
 
 theorem scan_spec (i : Nat) (ms : List Mem) :
@@ -33,14 +48,14 @@ theorem scan_spec (i : Nat) (ms : List Mem) :
       refine ⟨by simp [scan, errEntries, h1], by simp [scan, errEntries, reqMembers, h2]; omega, ?_⟩
       simpa [scan, reqMembers, notifCount] using h3
 
-theorem length_entriesFrom (max inc : Nat) (encLen : Id → R → Nat) (s : Nat) (cs : List (Call R)) :
+theorem length_entriesFrom (max inc : Nat) (encLen : Id → R → Nat) (s : Nat) (cs : List (BCall R)) :
     (entriesFrom max inc encLen s cs).length = cs.length := by
   induction cs generalizing s with
   | nil => rfl
   | cons c cs ih => simp [entriesFrom, ih]
 
 /-- entry `j` answers the `j`-th call: same member, same id -/
-theorem entriesFrom_keys (max inc : Nat) (encLen : Id → R → Nat) (s : Nat) (cs : List (Call R)) :
+theorem entriesFrom_keys (max inc : Nat) (encLen : Id → R → Nat) (s : Nat) (cs : List (BCall R)) :
     (entriesFrom max inc encLen s cs).map (fun e => (e.member, e.id)) =
       cs.map (fun c => (c.1, c.2.1)) := by
   induction cs generalizing s with
@@ -50,20 +65,20 @@ theorem entriesFrom_keys (max inc : Nat) (encLen : Id → R → Nat) (s : Nat) (
     split <;> rfl
 
 /-- before the last call nothing is returned; the last call returns everything -/
-theorem runCalls_complete (max inc : Nat) (encLen : Id → R → Nat) :
-    ∀ (cs : List (Call R)) (b : ReqBatch R), cs ≠ [] → b.parts.length + cs.length = b.count →
-      runCalls max inc encLen b cs =
+theorem runBound_complete (max inc : Nat) (encLen : Id → R → Nat) :
+    ∀ (cs : List (BCall R)) (b : ReqBatch R), cs ≠ [] → b.parts.length + cs.length = b.count →
+      runBound max inc encLen b cs =
         replicate (cs.length - 1) none ++ [some (b.parts ++ entriesFrom max inc encLen b.size cs)]
   | [], _, h, _ => absurd rfl h
   | [c], b, _, hc => by
-    simp only [runCalls, sendResult, entriesFrom, length_append, length_cons, length_nil]
+    simp only [runBound, sendResult, entriesFrom, length_append, length_cons, length_nil]
     simp only [length_cons, length_nil] at hc
     simp [hc]
   | c :: c' :: rest, b, _, hc => by
-    have ih := runCalls_complete max inc encLen (c' :: rest)
+    have ih := runBound_complete max inc encLen (c' :: rest)
       (sendResult max inc encLen b c.1 c.2.1 c.2.2).1 (by simp)
       (by simp only [sendResult, length_append, length_cons, length_nil] at hc ⊢; omega)
-    rw [runCalls, ih]
+    rw [runBound, ih]
     simp only [length_cons] at hc
     have hne : ((b.parts ++ [if (b.size + encLen c.2.1 c.2.2 + inc > max && max > 0) = true
         then Entry.big c.1 c.2.1 else Entry.res c.1 c.2.1 c.2.2]).length == b.count) = false := by
@@ -73,14 +88,14 @@ theorem runCalls_complete (max inc : Nat) (encLen : Id → R → Nat) :
     rfl
 
 /-- as long as some request member has not supplied its result, nothing is returned -/
-theorem runCalls_incomplete (max inc : Nat) (encLen : Id → R → Nat) :
-    ∀ (cs : List (Call R)) (b : ReqBatch R), b.parts.length + cs.length < b.count →
-      runCalls max inc encLen b cs = replicate cs.length none
+theorem runBound_incomplete (max inc : Nat) (encLen : Id → R → Nat) :
+    ∀ (cs : List (BCall R)) (b : ReqBatch R), b.parts.length + cs.length < b.count →
+      runBound max inc encLen b cs = replicate cs.length none
   | [], _, _ => rfl
   | c :: cs, b, hc => by
-    have ih := runCalls_incomplete max inc encLen cs (sendResult max inc encLen b c.1 c.2.1 c.2.2).1
+    have ih := runBound_incomplete max inc encLen cs (sendResult max inc encLen b c.1 c.2.1 c.2.2).1
       (by simp only [sendResult, length_append, length_cons, length_nil] at hc ⊢; omega)
-    rw [runCalls, ih]
+    rw [runBound, ih]
     simp only [length_cons] at hc
     have hne : ((b.parts ++ [if (b.size + encLen c.2.1 c.2.2 + inc > max && max > 0) = true
         then Entry.big c.1 c.2.1 else Entry.res c.1 c.2.1 c.2.2]).length == b.count) = false := by
@@ -89,7 +104,7 @@ theorem runCalls_incomplete (max inc : Nat) (encLen : Id → R → Nat) :
 
 /-- entry `j` is the real result exactly while the running size stays within the limit -/
 theorem entriesFrom_real (max inc : Nat) (encLen : Id → R → Nat) :
-    ∀ (cs : List (Call R)) (s j : Nat) (hj : j < (entriesFrom max inc encLen s cs).length),
+    ∀ (cs : List (BCall R)) (s j : Nat) (hj : j < (entriesFrom max inc encLen s cs).length),
       ((entriesFrom max inc encLen s cs)[j]).isReal =
         (max == 0 || decide (sizeAfter inc encLen s (cs.take (j + 1)) ≤ max))
   | [], _, _, hj => by simp [entriesFrom] at hj
@@ -108,5 +123,222 @@ theorem entriesFrom_real (max inc : Nat) (encLen : Id → R → Nat) :
     simp only [sizeAfter, take_succ_cons, map_cons, sum_cons]
     congr 2
     simp only [Nat.add_assoc]
+
+theorem le_sum_of_mem : ∀ {l : List Nat} {x : Nat}, x ∈ l → x ≤ l.sum
+  | [], _, h => by simp at h
+  | y :: l, x, h => by
+    rcases mem_cons.1 h with rfl | h
+    · simp
+    · have := le_sum_of_mem h
+      simp only [sum_cons]; omega
+
+theorem count_eq_one_of_nodup {l : List Nat} {a : Nat} (d : l.Nodup) (h : a ∈ l) :
+    l.count a = 1 := by
+  rw [d.count]; simp [h]
+
+/-! ### which id an item is bound to -/
+
+def lookupId : Nat → List (Nat × Id) → Option Id
+  | _, [] => none
+  | k, (m, id) :: l => if k = m then some id else lookupId k l
+
+/-- the item of member `k` is bound to the id member `k` carries in the composition -/
+theorem boundId_scan (i : Nat) (ms : List Mem) (k : Nat) :
+    boundId (scan (R := R) i ms).1 k = lookupId k (reqMembers i ms) := by
+  induction ms generalizing i with
+  | nil => rfl
+  | cons m ms ih =>
+    cases m with
+    | req id => simp only [scan, boundId, reqMembers, lookupId, ih (i + 1)]
+    | notif => simp only [scan, boundId, reqMembers, ih (i + 1)]
+    | invalid id => simp only [scan, reqMembers, ih (i + 1)]
+
+theorem lookupId_mem {k : Nat} {l : List (Nat × Id)} {id : Id} (h : lookupId k l = some id) :
+    (k, id) ∈ l := by
+  induction l with
+  | nil => simp [lookupId] at h
+  | cons p l ih =>
+    obtain ⟨m, j⟩ := p
+    simp only [lookupId] at h
+    by_cases hk : k = m
+    · simp only [hk, ↓reduceIte, Option.some.injEq] at h
+      subst hk; subst h; simp
+    · simp only [hk, ↓reduceIte] at h
+      exact mem_cons_of_mem _ (ih h)
+
+theorem lookupId_isSome {k : Nat} {l : List (Nat × Id)} (h : k ∈ l.map (·.1)) :
+    ∃ id, lookupId k l = some id := by
+  induction l with
+  | nil => simp at h
+  | cons p l ih =>
+    obtain ⟨m, j⟩ := p
+    by_cases hk : k = m
+    · exact ⟨j, by simp [lookupId, hk]⟩
+    · have : k ∈ l.map (·.1) := by
+        simp only [map_cons, mem_cons] at h
+        rcases h with h | h
+        · exact absurd h hk
+        · exact h
+      obtain ⟨id, hid⟩ := ih this
+      exact ⟨id, by simp [lookupId, hk, hid]⟩
+
+/-- `(m, id)` is listed among the request members exactly when member `m` of the composition
+    is the request with id `id` -/
+theorem mem_reqMembers (i : Nat) (ms : List Mem) (m : Nat) (id : Id) :
+    (m, id) ∈ reqMembers i ms ↔ i ≤ m ∧ ms[m - i]? = some (.req id) := by
+  induction ms generalizing i with
+  | nil => simp [reqMembers]
+  | cons x ms ih =>
+    have step : ∀ (hlt : i < m), (x :: ms)[m - i]? = ms[m - (i + 1)]? := by
+      intro hlt
+      have : m - i = (m - (i + 1)) + 1 := by omega
+      rw [this, getElem?_cons_succ]
+    cases x with
+    | req j =>
+      simp only [reqMembers, mem_cons, Prod.mk.injEq, ih (i + 1)]
+      constructor
+      · rintro (⟨rfl, rfl⟩ | ⟨h1, h2⟩)
+        · simp
+        · exact ⟨by omega, by rw [step (by omega)]; exact h2⟩
+      · rintro ⟨h1, h2⟩
+        by_cases hm : m = i
+        · subst hm
+          simp only [Nat.sub_self, getElem?_cons_zero, Option.some.injEq, Mem.req.injEq] at h2
+          exact Or.inl ⟨rfl, h2.symm⟩
+        · have hlt : i < m := by omega
+          rw [step hlt] at h2
+          exact Or.inr ⟨by omega, h2⟩
+    | notif =>
+      simp only [reqMembers, ih (i + 1)]
+      constructor
+      · rintro ⟨h1, h2⟩
+        exact ⟨by omega, by rw [step (by omega)]; exact h2⟩
+      · rintro ⟨h1, h2⟩
+        by_cases hm : m = i
+        · subst hm; simp at h2
+        · have hlt : i < m := by omega
+          rw [step hlt] at h2
+          exact ⟨by omega, h2⟩
+    | invalid j =>
+      simp only [reqMembers, ih (i + 1)]
+      constructor
+      · rintro ⟨h1, h2⟩
+        exact ⟨by omega, by rw [step (by omega)]; exact h2⟩
+      · rintro ⟨h1, h2⟩
+        by_cases hm : m = i
+        · subst hm; simp at h2
+        · have hlt : i < m := by omega
+          rw [step hlt] at h2
+          exact ⟨by omega, h2⟩
+
+/-- the member indices listed by `reqMembers` are strictly increasing, so each at most once -/
+theorem reqMembers_lt (i : Nat) (ms : List Mem) :
+    (∀ p ∈ reqMembers i ms, i ≤ p.1) ∧ ((reqMembers i ms).map (·.1)).Pairwise (· < ·) := by
+  induction ms generalizing i with
+  | nil => simp [reqMembers]
+  | cons x ms ih =>
+    obtain ⟨h1, h2⟩ := ih (i + 1)
+    cases x with
+    | req j =>
+      refine ⟨?_, ?_⟩
+      · intro p hp
+        simp only [reqMembers, mem_cons] at hp
+        rcases hp with rfl | hp
+        · exact Nat.le_refl _
+        · exact Nat.le_of_succ_le (h1 p hp)
+      · simp only [reqMembers, map_cons, pairwise_cons]
+        refine ⟨?_, h2⟩
+        intro a ha
+        obtain ⟨p, hp, rfl⟩ := mem_map.1 ha
+        exact h1 p hp
+    | notif =>
+      exact ⟨fun p hp => Nat.le_of_succ_le (h1 p (by simpa [reqMembers] using hp)),
+        by simpa [reqMembers] using h2⟩
+    | invalid j =>
+      exact ⟨fun p hp => Nat.le_of_succ_le (h1 p (by simpa [reqMembers] using hp)),
+        by simpa [reqMembers] using h2⟩
+
+theorem reqIdx_nodup (ms : List Mem) : (reqIdx ms).Nodup := by
+  have := (reqMembers_lt 0 ms).2
+  exact this.imp (fun h => Nat.ne_of_lt h)
+
+/-! ### resolved deliveries -/
+
+/-- attach to each delivery the id its item's `send_result` is bound to (deliveries to members
+    without a `send_result` never happen) -/
+def resolve (its : List Item) : List (Call R) → List (BCall R)
+  | [] => []
+  | c :: cs =>
+      match boundId its c.1 with
+      | some id => (c.1, id, c.2) :: resolve its cs
+      | none => resolve its cs
+
+theorem runCalls_resolved (max inc : Nat) (encLen : Id → R → Nat) (its : List Item) :
+    ∀ (cs : List (Call R)) (b : ReqBatch R), (∀ c ∈ cs, ∃ id, boundId its c.1 = some id) →
+      runCalls max inc encLen its b cs = runBound max inc encLen b (resolve its cs)
+  | [], _, _ => rfl
+  | c :: cs, b, h => by
+    obtain ⟨id, hid⟩ := h c (by simp)
+    have ih := fun b' => runCalls_resolved max inc encLen its cs b'
+      (fun x hx => h x (mem_cons_of_mem _ hx))
+    simp only [runCalls, resolve, hid, runBound, ih]
+
+theorem resolve_spec (its : List Item) :
+    ∀ (cs : List (Call R)), (∀ c ∈ cs, ∃ id, boundId its c.1 = some id) →
+      (resolve its cs).length = cs.length ∧
+      (resolve its cs).map (fun c => (c.1, c.2.2)) = cs ∧
+      ∀ bc ∈ resolve its cs, boundId its bc.1 = some bc.2.1
+  | [], _ => ⟨rfl, rfl, by simp [resolve]⟩
+  | c :: cs, h => by
+    obtain ⟨id, hid⟩ := h c (by simp)
+    obtain ⟨a, b, d⟩ := resolve_spec its cs (fun x hx => h x (mem_cons_of_mem _ hx))
+    refine ⟨by simp [resolve, hid, a], by simp [resolve, hid, b], ?_⟩
+    intro bc hbc
+    simp only [resolve, hid, mem_cons] at hbc
+    rcases hbc with rfl | hbc
+    · exact hid
+    · exact d bc hbc
+
+/-! ### the real entries are a prefix; their accounted size is within the limit -/
+
+/-- the encoded length of a real result entry (0 for the others) -/
+def resLen (encLen : Id → R → Nat) : Entry R → Nat
+  | .res _ id r => encLen id r
+  | _ => 0
+
+/-- once the running size is over the limit every later entry is replaced -/
+theorem no_real_after_overflow (max inc : Nat) (encLen : Id → R → Nat) (hmax : 0 < max) :
+    ∀ (l : List (BCall R)) (t : Nat), max < t →
+      (entriesFrom max inc encLen t l).filter Entry.isReal = []
+  | [], _, _ => rfl
+  | d :: l, t, ht => by
+    have h : t + encLen d.2.1 d.2.2 + inc > max := by omega
+    simp only [entriesFrom, h, hmax, decide_true, Bool.and_self, ↓reduceIte]
+    rw [filter_cons_of_neg (by simp [Entry.isReal])]
+    exact no_real_after_overflow max inc encLen hmax l _ h
+
+/-- the accounted size of the real entries among the entries produced from running size `s`
+    never exceeds what the limit leaves -/
+theorem real_entries_accounted (max inc : Nat) (encLen : Id → R → Nat) (hmax : 0 < max) :
+    ∀ (cs : List (BCall R)) (s : Nat), s ≤ max →
+      s + (((entriesFrom max inc encLen s cs).filter Entry.isReal).map
+        fun e => resLen encLen e + inc).sum ≤ max
+  | [], s, hs => by simpa [entriesFrom] using hs
+  | c :: cs, s, hs => by
+    by_cases h : s + encLen c.2.1 c.2.2 + inc > max
+    · simp only [entriesFrom, h, hmax, decide_true, Bool.and_self, ↓reduceIte]
+      rw [filter_cons_of_neg (by simp [Entry.isReal]),
+        no_real_after_overflow max inc encLen hmax cs _ h]
+      simpa using hs
+    · have h' : s + encLen c.2.1 c.2.2 + inc ≤ max := by omega
+      have ih := real_entries_accounted max inc encLen hmax cs _ h'
+      have hcond : (decide (s + encLen c.2.1 c.2.2 + inc > max) && decide (max > 0)) = false := by
+        simp [h]
+      simp only [entriesFrom, hcond, Bool.false_eq_true, ↓reduceIte]
+      rw [filter_cons_of_pos (by simp [Entry.isReal])]
+      simp only [map_cons, sum_cons]
+      have hr : resLen encLen (Entry.res c.1 c.2.1 c.2.2) = encLen c.2.1 c.2.2 := rfl
+      rw [hr]
+      omega
 
 end Aiorpcx.C02
